@@ -8,7 +8,7 @@ use std::sync::Arc;
 
 use cairo_lang_casm::hints::{CoreHint, CoreHintBase, Hint};
 use cairo_lang_casm::operand::{CellRef, Register};
-use cairo_lang_runner::casm_run::{StarknetHintProcessor, cell_ref_to_relocatable};
+use cairo_lang_runner::casm_run::{StarknetHintProcessor, cell_ref_to_relocatable, get_val};
 use cairo_lang_runner::{Arg, CairoHintProcessor, RunResultStarknet, StarknetExecutionResources, StarknetState};
 use cairo_lang_sierra::program::Function;
 use cairo_vm::hint_processor::hint_processor_definition::{HintProcessorLogic, HintReference};
@@ -70,7 +70,7 @@ pub struct Dev<'a> {
     /// (occurrence, values to write instead of the honest ones)
     deviate: Vec<(usize, Vec<MaybeRelocatable>)>,
     /// (kind, honest outputs) per occurrence with outputs
-    pub log: Vec<(String, Vec<MaybeRelocatable>)>,
+    pub log: Vec<(String, Vec<MaybeRelocatable>, Vec<Felt>)>,
 }
 
 impl HintProcessorLogic for Dev<'_> {
@@ -90,9 +90,15 @@ impl HintProcessorLogic for Dev<'_> {
                     for (c, v) in [x, y].into_iter().zip(vals) {
                         vm.insert_value(cell_ref_to_relocatable(c, vm), v).map_err(HintError::Memory)?;
                     }
-                    self.log.push(("RandomEcPoint".into(), honest));
+                    self.log.push(("RandomEcPoint".into(), honest, vec![]));
                     return Ok(());
                 }
+                // the hint's inputs (for the alternatives that satisfy the verified relation modulo P)
+                let inputs: Vec<Felt> = match ch {
+                    CoreHint::DivMod { lhs, rhs, .. } => [lhs, rhs].iter().filter_map(|o| get_val(vm, o).ok()).collect(),
+                    CoreHint::LinearSplit { value, scalar, max_x, .. } => [value, scalar, max_x].iter().filter_map(|o| get_val(vm, o).ok()).collect(),
+                    _ => vec![],
+                };
                 // run the real hint with its outputs redirected to scratch cells far above the stack
                 let mut orig = vec![];
                 for (k, c) in outputs_mut(&mut h2).into_iter().enumerate() {
@@ -117,7 +123,7 @@ impl HintProcessorLogic for Dev<'_> {
                         vm.insert_value(cell_ref_to_relocatable(c, vm), v).map_err(HintError::Memory)?;
                     }
                 }
-                self.log.push((kind_of(ch), honest.into_iter().map(|v| v.unwrap_or(MaybeRelocatable::Int(Felt::ZERO))).collect()));
+                self.log.push((kind_of(ch), honest.into_iter().map(|v| v.unwrap_or(MaybeRelocatable::Int(Felt::ZERO))).collect(), inputs));
                 return Ok(());
             }
         }
@@ -158,7 +164,7 @@ fn fixed_ec_point() -> (Felt, Felt) {
     )
 }
 
-fn run_dev(c: &Compiled, f: &Function, args: &[Arg], gas: usize, deviate: Vec<(usize, Vec<MaybeRelocatable>)>, step_cap: usize) -> Result<(Result<RunResultStarknet, String>, Vec<(String, Vec<MaybeRelocatable>)>), String> {
+fn run_dev(c: &Compiled, f: &Function, args: &[Arg], gas: usize, deviate: Vec<(usize, Vec<MaybeRelocatable>)>, step_cap: usize) -> Result<(Result<RunResultStarknet, String>, Vec<(String, Vec<MaybeRelocatable>, Vec<Felt>)>), String> {
     let a: Vec<Arg> = args.to_vec();
     let (mut hp0, ctx) = c.runner.prepare_starknet_context(f, a, Some(gas), StarknetState::default()).map_err(|e| format!("{e}"))?;
     // bound the run: a deviated flag may send the program into a long loop
@@ -173,7 +179,7 @@ fn two() -> Felt {
 }
 
 /// The alternative menu for one occurrence: every alternative differs from the honest output vector.
-fn menu(kind: &str, honest: &[MaybeRelocatable], prev_ptrs: &[MaybeRelocatable]) -> Vec<(String, Vec<MaybeRelocatable>)> {
+fn menu(kind: &str, honest: &[MaybeRelocatable], prev_ptrs: &[MaybeRelocatable], inputs: &[Felt]) -> Vec<(String, Vec<MaybeRelocatable>)> {
     let mut out: Vec<(String, Vec<MaybeRelocatable>)> = vec![];
     let p128 = two().pow(128u32);
     for (k, h) in honest.iter().enumerate() {
@@ -231,6 +237,30 @@ fn menu(kind: &str, honest: &[MaybeRelocatable], prev_ptrs: &[MaybeRelocatable])
             }
         }
     }
+    // decompositions of the *same residue*: the verified relation (a == q*b + r, value == x*scalar + y) is
+    // checked modulo P, so every (q', r') decomposing a + k*P must be excluded by the range checks alone
+    let prime = Felt::prime();
+    let int = |f: &Felt| f.to_biguint();
+    let fel = |b: &num_bigint::BigUint| Felt::from_bytes_be_slice(&(b % &prime).to_bytes_be());
+    if (kind == "DivMod" && inputs.len() == 2) || (kind == "LinearSplit" && inputs.len() == 3) {
+        let (a, b) = (int(&inputs[0]), int(&inputs[1]));
+        if !num_traits::Zero::is_zero(&b) && honest.len() >= 2 {
+            for k in 1u32..=3 {
+                let big = &a + &prime * k;
+                let (q, r) = (&big / &b, &big % &b);
+                let mut v = honest.to_vec();
+                v[0] = MaybeRelocatable::Int(fel(&q));
+                v[1] = MaybeRelocatable::Int(fel(&r));
+                out.push((format!("decompose(a+{k}P)"), v));
+                if !num_traits::Zero::is_zero(&q) {
+                    let mut v = honest.to_vec();
+                    v[0] = MaybeRelocatable::Int(fel(&(&q - 1u32)));
+                    v[1] = MaybeRelocatable::Int(fel(&(&r + &b)));
+                    out.push((format!("decompose(a+{k}P):q-1,r+b"), v));
+                }
+            }
+        }
+    }
     out.retain(|(_, v)| v.as_slice() != honest);
     out
 }
@@ -263,6 +293,53 @@ const EXTRA: &[(&str, &str)] = &[
     ("u64_mul_div", "fn f(a: u64, b: u64) -> u64 { let p = core::num::traits::WrappingMul::wrapping_mul(a, b); if b == 0 { p } else { p / b + p % b } }\n"),
 ];
 
+/// The div_rem lattice: `bounded_int_div_rem<Lhs, Divisor>` for dividend and divisor ranges on both sides of
+/// every threshold at which the compiler switches the verification scheme (KnownSmallRhs while
+/// `rhs.upper * 2^128 < P`, then KnownSmallQuotient while `q_upper * 2^128 < P`, then KnownSmallLhs); a
+/// scheme selected one step too far no longer pins the quotient against decompositions of a + k*P.
+pub fn divrem_lattice() -> Vec<(String, String)> {
+    use num_bigint::BigUint;
+    let two = |k: u32| BigUint::from(1u8) << k;
+    // T = (P - 1) / 2^128 = 2^123 + 17 * 2^64: the largest x with x * 2^128 < P
+    let t = two(123) + BigUint::from(17u8) * two(64);
+    let one = BigUint::from(1u8);
+    let lmaxs: Vec<(String, BigUint)> = vec![
+        ("u8".into(), two(8) - &one),
+        ("u128".into(), two(128) - &one),
+        ("2^200".into(), two(200)),
+        ("T*2^64".into(), &t * two(64)),
+        ("2^246".into(), two(246)),
+        ("2^250".into(), two(250)),
+    ];
+    let dranges: Vec<(String, BigUint, BigUint)> = vec![
+        ("1..255".into(), one.clone(), BigUint::from(255u8)),
+        ("1..T-2".into(), one.clone(), &t - 2u8),
+        ("1..T-1".into(), one.clone(), &t - 1u8),
+        ("1..T".into(), one.clone(), t.clone()),
+        ("1..T+1".into(), one.clone(), &t + 1u8),
+        ("1..2^124-1".into(), one.clone(), two(124) - &one),
+        ("1..2^128-1".into(), one.clone(), two(128) - &one),
+        ("1..2^128".into(), one.clone(), two(128)),
+        ("2^64..2^128-1".into(), two(64), two(128) - &one),
+        ("T..T".into(), t.clone(), t.clone()),
+        ("2^123..2^124".into(), two(123), two(124)),
+        ("2^127..2^128".into(), two(127), two(128)),
+    ];
+    let mut out = vec![];
+    for (ln, lmax) in &lmaxs {
+        for (dn, dmin, dmax) in &dranges {
+            let qmax = lmax / dmin;
+            let lhs_ty = if ln == "u8" || ln == "u128" { ln.clone() } else { format!("BoundedInt<0, {lmax}>") };
+            let code = format!(
+                "#[feature(\"bounded-int-utils\")]\nuse core::internal::bounded_int::{{self, BoundedInt, DivRemHelper, upcast}};\ntype Divisor = BoundedInt<{dmin}, {dmax}>;\nimpl H of DivRemHelper<{lhs_ty}, Divisor> {{\n    type DivT = BoundedInt<0, {qmax}>;\n    type RemT = BoundedInt<0, {}>;\n}}\nfn f(a: {lhs_ty}, b: NonZero<Divisor>) -> (felt252, felt252) {{\n    let (q, r) = bounded_int::div_rem(a, b);\n    (upcast(q), upcast(r))\n}}\n",
+                dmax - &one
+            );
+            out.push((format!("hintx:divrem:{ln}/{dn}"), code));
+        }
+    }
+    out
+}
+
 pub fn debug_time(code: &str, arg: i64) {
     let mut dbs = Dbs::default();
     let cfg = Cfg::DEFAULT;
@@ -274,8 +351,8 @@ pub fn debug_time(code: &str, arg: i64) {
     let (r, log) = run_dev(&c, f, &args, 100_000_000, vec![], 5_000_000).unwrap();
     let r = r.unwrap();
     println!("honest: {:?} steps {} occurrences {} in {:?}", r.value, r.used_resources.basic_resources.n_steps, log.len(), t.elapsed());
-    for (i, (kind, hv)) in log.iter().enumerate().take(40) {
-        for (an, alt) in menu(kind, hv, &[]) {
+    for (i, (kind, hv, hin)) in log.iter().enumerate().take(40) {
+        for (an, alt) in menu(kind, hv, &[], hin) {
             let t = std::time::Instant::now();
             let r = guarded(|| run_dev(&c, f, &args, 100_000_000, vec![(i, alt.clone())], r.used_resources.basic_resources.n_steps * 4 + 3000));
             let el = t.elapsed();
@@ -301,6 +378,7 @@ fn run_all(ctx: &mut Ctx) {
         progs.push((s.name, s.code));
     }
     progs.extend(EXTRA.iter().map(|(n, c)| (format!("hintx:{n}"), c.to_string())));
+    progs.extend(divrem_lattice());
     let mut dbs = Dbs::default();
     let cfg = Cfg::DEFAULT;
     let max_vec = tier.pick(9, 49);
@@ -324,7 +402,12 @@ fn run_all(ctx: &mut Ctx) {
                         if vi == 0 {
                             ctx.count("programs_not_compiled", 1);
                         }
-                        if name.starts_with("hintx:") || name.starts_with("extra:") {
+                        if name.starts_with("hintx:divrem:") {
+                            // ranges for which no verification scheme exists are refused by the compiler
+                            if vi == 0 {
+                                ctx.count("divrem_instantiations_refused", 1);
+                            }
+                        } else if name.starts_with("hintx:") || name.starts_with("extra:") {
                             ctx.note(format!("{name} does not compile: {}", match other { Ok(Err(e)) => e.chars().take(300).collect::<String>(), _ => "panic".into() }));
                         }
                         return;
@@ -366,8 +449,8 @@ fn run_all(ctx: &mut Ctx) {
                         ctx.count("honest_runs", 1);
                         ctx.count("hint_occurrences", log.len() as i64);
                         let mut prev_ptrs: Vec<MaybeRelocatable> = vec![];
-                        for (i, (kind, hv)) in log.iter().enumerate().take(tier.pick(40, 200)) {
-                            let m = menu(kind, hv, &prev_ptrs);
+                        for (i, (kind, hv, hin)) in log.iter().enumerate().take(tier.pick(40, 200)) {
+                            let m = menu(kind, hv, &prev_ptrs, hin);
                             for h in hv {
                                 if matches!(h, MaybeRelocatable::RelocatableValue(_)) {
                                     prev_ptrs.push(h.clone());
@@ -420,7 +503,7 @@ fn run_all(ctx: &mut Ctx) {
                             }
                         }
                         if !log.is_empty() {
-                            ctx.sample(|| json!({"program": name, "function": fname(f), "args": args_str(args), "hint_occurrences": log.iter().map(|(k, v)| json!({"hint": k, "honest": mr_json(v)})).collect::<Vec<_>>()}));
+                            ctx.sample(|| json!({"program": name, "function": fname(f), "args": args_str(args), "hint_occurrences": log.iter().map(|(k, v, _)| json!({"hint": k, "honest": mr_json(v)})).collect::<Vec<_>>()}));
                         }
                     }
                 }
@@ -433,7 +516,7 @@ fn run_all(ctx: &mut Ctx) {
 pub static C03: CheckDef = CheckDef {
     id: "C03",
     level: "fault_enumeration",
-    rule: "Fault enumeration with deviation bound 1. Programs: every e2e cairo_code snippet + 24 hand-written programs + 15 hint-targeted programs (u256/u512 division, square roots, modular inverse, felt->int conversions, downcasts, dict squash, arrays, EC, wide mul, signed division), every function with scalar parameters x boundary inputs (quick <=9 vectors, thorough <=49). One honest run (through a StarknetHintProcessor wrapper around the runner's CairoHintProcessor; the real hint is executed with its output cells redirected to scratch cells so its side state stays honest) records the ordered hint occurrences h1..hn and their honest outputs. Then for EVERY occurrence (quick: first 40, thorough: first 200) and EVERY alternative of the menu one run deviates at that occurrence only. Menu per output cell: flipped boolean, v+1, v-1, 0, 1, 2, -v, v+2^128, 2^128-1, 2^128; for pointers: alias of each of the last 3 allocated pointers, ptr+1, integer 0; for pairs: swapped, and consistent re-decompositions (q+1, r-d), (q-1, r+d) for d in {1,2,255,256,2^128}; RandomEcPoint's randomness is replaced by a fixed curve point. Oracle: the deviated run is a VM failure, or Ok with the same value AND gas counter as the honest run; Ok with a different value (or gas) is the violation. observed_outcomes lists (hint kind, outcome) counts: every reached hint kind must show VM failures (vacuity guard). distinct_nontrivial = distinct (program, function, args, occurrence, alternative).",
+    rule: "Fault enumeration with deviation bound 1. Programs: every e2e cairo_code snippet + 24 hand-written programs + 15 hint-targeted programs (u256/u512 division, square roots, modular inverse, felt->int conversions, downcasts, dict squash, arrays, EC, wide mul, signed division), every function with scalar parameters x boundary inputs (quick <=9 vectors, thorough <=49). One honest run (through a StarknetHintProcessor wrapper around the runner's CairoHintProcessor; the real hint is executed with its output cells redirected to scratch cells so its side state stays honest) records the ordered hint occurrences h1..hn and their honest outputs. Then for EVERY occurrence (quick: first 40, thorough: first 200) and EVERY alternative of the menu one run deviates at that occurrence only. Menu per output cell: flipped boolean, v+1, v-1, 0, 1, 2, -v, v+2^128, 2^128-1, 2^128; for pointers: alias of each of the last 3 allocated pointers, ptr+1, integer 0; for pairs: swapped, and consistent re-decompositions (q+1, r-d), (q-1, r+d) for d in {1,2,255,256,2^128}; for DivMod and LinearSplit the hint's inputs are read and every decomposition of the same residue a + kP (k = 1..3; canonical and q-1, r+b) is offered, since the verified relation holds modulo P and only the range checks exclude them; plus the div_rem lattice: bounded_int_div_rem over 6 dividend ranges x 12 divisor ranges placed on both sides of T = (P-1)/2^128 for each of the three verification schemes (KnownSmallRhs / KnownSmallQuotient / KnownSmallLhs); RandomEcPoint's randomness is replaced by a fixed curve point. Oracle: the deviated run is a VM failure, or Ok with the same value AND gas counter as the honest run; Ok with a different value (or gas) is the violation. observed_outcomes lists (hint kind, outcome) counts: every reached hint kind must show VM failures (vacuity guard). distinct_nontrivial = distinct (program, function, args, occurrence, alternative).",
     assumptions: &["soundness is judged against cairo-vm's checks (write-once memory, range-check and other builtin validation at end of run), not against a STARK prover", "hints that write through pointers (AssertLeFindSmallArcs, GetCurrentAccessIndex, Felt252DictEntryInit, AllocFelt252Dict, EvalCircuit) are executed honestly in this version", "scratch cells for redirected outputs live at ap+3000.. and are assumed unused by the small programs"],
     run: run_all,
     stack_mb: 32,
